@@ -3,6 +3,7 @@ package main
 import (
 	"fmt"
 	"go/types"
+	"os"
 	"strings"
 
 	"golang.org/x/tools/go/ssa"
@@ -167,6 +168,14 @@ func runC06(c *Ctx) {
 				return n == "rt/middleware.validateContentType" || n == "(*rt/middleware.untypedParamBinder).Bind"
 			}
 			okCaller := allowed(fnName(fn))
+			if !okCaller && fn.Parent() != nil {
+				// a function literal inside one of the two (a local `refused := func() error {…}`)
+				root := fn
+				for root.Parent() != nil {
+					root = root.Parent()
+				}
+				okCaller = allowed(fnName(root))
+			}
 			if !okCaller && isTransparent(fn) {
 				// a helper the code was moved into: judged by the functions it is called from
 				okCaller = true
@@ -420,14 +429,31 @@ func runC06(c *Ctx) {
 			sawExact = true
 			return "exact"
 		}
-		form := ""
-		for _, o := range originsOf(arg) {
-			if bo, ok := o.V.(*ssa.BinOp); ok {
-				if s, ok := constString(bo.Y); ok && s == "/*" {
-					sawType = true
-					form = "type/*"
+		// (one membership test shared by the three forms — a local `admits(entry)` — is judged per form handed in)
+		form, all := "", true
+		os := originsOf(arg)
+		for _, o := range os {
+			switch {
+			case oConstString("*/*")(o):
+				sawAny = true
+				form = "*/*"
+			case oCall(0, "mime.ParseMediaType")(o):
+				sawExact = true
+				form = "exact"
+			default:
+				bo, ok := o.V.(*ssa.BinOp)
+				if s, isS := "", false; ok {
+					if s, isS = constString(bo.Y); isS && s == "/*" {
+						sawType = true
+						form = "type/*"
+						continue
+					}
 				}
+				all = false
 			}
+		}
+		if !all || len(os) == 0 {
+			return ""
 		}
 		return form
 	}
@@ -753,3 +779,6 @@ func ruleUntypedGateForEveryBody(c *Ctx, rule string) {
 	}
 	c.obI(rule, cts[0], "consumer-stage-for-every-body", !skipped, "every request for which HasBody answers true goes through the content-type stage, whatever its method: that is where its consumer is selected", "the stage can be skipped although the request carries a body: the binder is then handed no consumer")
 }
+
+func debugOn() bool       { return os.Getenv("RTDEBUG") != "" }
+func os_stderr() *os.File { return os.Stderr }
